@@ -28,6 +28,11 @@ DOT_POOL = {"start": [".", ".", "100", "150"], "end": [".", ".", "200", "300"]}
 # (start, end) pairs that lie in different genomic bins at every level of the usual binning schemes (all far below 2**29)
 POSITIONS = [["1", "500"], ["40000001", "40000500"], ["100", "200"], ["300000000", "300000400"], ["65000", "70000"],
              ["131073", "131074"]]
+# (start, end) pairs on both sides of / across the boundaries of the usual genomic bins (multiples of 131072 = 2**17 and of the
+# 8x coarser sizes 2**20, 2**23), some one base apart
+EDGE_POSITIONS = [["131000", "140000"], ["100000", "131071"], ["100000", "131072"], ["100000", "131073"], ["131072", "131100"],
+                  ["131073", "131200"], ["1048000", "1049000"], ["1048577", "1048700"], ["1048000", "1048576"],
+                  ["8388000", "8389000"], ["262100", "262200"], ["100", "200"], ["150", "260"]]
 EXTRAS = ["x1", "y", "10", "é", "a b", ".", "0.5", "ID=K"]       # 10th / 11th tab-separated fields
 
 # opts (all optional; plain data, only used while generating):
@@ -40,6 +45,7 @@ EXTRAS = ["x1", "y", "10", "é", "a b", ".", "0.5", "ID=K"]       # 10th / 11th 
 #              (under 'merge': one list per base key, the statement does not say whether such columns must agree)
 #     farbins  True: the column variants of a key are placed at POSITIONS (different genomic bins)
 #     verbose  False | True | "debug": handed to create_db and to every update (absent: not handed over)
+#     edges    True (with farbins): the positions are EDGE_POSITIONS (around genomic-bin boundaries)
 
 
 def pool(c, opts):
@@ -82,7 +88,7 @@ def place(rng, cols, opts):
         inverted = int(cols["start"]) > int(cols["end"])      # a variant of a placed feature: only one coordinate redrawn
         if inverted or rng.random() < 0.75:
             cols = dict(cols)
-            cols["start"], cols["end"] = rng.choice(POSITIONS)
+            cols["start"], cols["end"] = rng.choice(EDGE_POSITIONS if opts.get("edges") else POSITIONS)
     return cols
 
 
@@ -206,7 +212,7 @@ def gen_history(rng, fmt, strategy, force, path, arrivals=None, opts=None):
         case["gtfkeys"] = list(opts["gtfkeys"])
     if opts.get("verbose") is not None:
         case["verbose"] = opts["verbose"]
-    tags = [k for k in ("flags", "dots", "gtfkeys", "extras", "farbins") if opts.get(k)]
+    tags = [k for k in ("flags", "dots", "gtfkeys", "extras", "farbins", "edited") if opts.get(k)]
     if tags:
         case["opts"] = tags
     return case
@@ -256,3 +262,83 @@ def gen_badforce(rng, fmt):
     case = gen_history(rng, fmt, "merge", [], "update", arrivals=2)
     case.update(kind="badforce", force=bad)
     return case
+
+
+# ---------------------------------------------------------------------------------------------------------------
+# colliding newcomers that are Feature objects whose coordinates were edited after construction
+def bin_of(start, end):
+    """Smallest bin of the usual binning scheme (128 kb bins, 8x coarser per level) that holds start..end; only compared
+    for equality (classification of cases, not part of the oracle)."""
+    s, e = int(start) - 1, int(end) - 1
+    for shift in (17, 20, 23, 26):
+        if s >> shift == e >> shift:
+            return (shift, s >> shift)
+    return (29, 0)
+
+
+def gen_edited(rng, fmt, strategy, force, opts=None):
+    """A history whose records are the features as finally handed to the importer; "built"[batch][i] = [start, end] at
+    which the Feature object of record i is constructed before its coordinates are edited to the record's (None: not
+    edited), "modes"[batch] = who edits: "transform" (a transform given to create_db / update; the text carries the
+    construction coordinates) or "objects" (the caller builds Feature objects, edits .start/.end, hands the list over)."""
+    o = dict(opts or {}, farbins=True, edges=True, edited=True)
+    o.pop("dots", None)
+    if rng.random() < 0.25 and strategy != "error":
+        case = gen_multirun(rng, fmt, strategy, force, opts=o)
+    else:
+        case = gen_history(rng, fmt, strategy, force, rng.choice(["create", "update", "update"]), opts=o)
+    used = set((r["start"], r["end"]) for b in case["batches"] for r in b)
+    first = {}
+    built, modes = [], []
+    idx = 0
+    for b in case["batches"]:
+        mode = rng.choice(["transform", "objects"])
+        bl = []
+        for rec in b:
+            idx += 1
+            key = dict((k, v) for k, v in rec["attrs"])[case["idkey"]][0]
+            here = (rec["start"], rec["end"])
+            r = rng.random()
+            pair = None
+            if r < 0.15:
+                pass
+            elif mode == "objects" and key in first and first[key] != here and r < 0.5:
+                pair = list(first[key])       # built with the coordinates of the feature stored under the key, then edited away
+            else:
+                while pair is None or tuple(pair) in used:
+                    how = rng.choice(["small", "small", "far", "longer", "shifted"])
+                    if how == "small":
+                        s0 = 1000 + 61 * idx + rng.randrange(50)
+                        pair = [str(s0), str(s0 + 50)]
+                    elif how == "far":
+                        s0 = 300000000 + 61 * idx + rng.randrange(50)
+                        pair = [str(s0), str(s0 + 400)]
+                    elif how == "longer":
+                        pair = [rec["start"], str(int(rec["end"]) + rng.choice([1, 1, 2, 70000, 1000000]) + idx)]
+                    else:
+                        d = rng.choice([1, 2, 500, 131072]) + idx
+                        pair = [str(int(rec["start"]) + d), str(int(rec["end"]) + d)]
+                used.add(tuple(pair))
+            first.setdefault(key, here)
+            bl.append(pair)
+        built.append(bl)
+        modes.append(mode)
+    case["built"] = built
+    case["modes"] = modes
+    return case
+
+
+def gen_locked(rng, fmt, strategy):
+    """update() of a file database while another connection holds a write transaction for longer than sqlite3's busy
+    timeout and then releases it.  No key collides."""
+    base, new = [], []
+    idkey = "ID" if fmt == "gff3" else "fid"
+    for i in range(rng.choice([1, 2, 3])):
+        base.append(dict(columns(rng), attrs=attributes(rng, fmt, idkey, "b%d" % i), extra=[]))
+    if fmt == "gff3":
+        base.append(dict(columns(rng), featuretype="mRNA", attrs=[["ID", ["P1"]], ["Note", ["parent"]]], extra=[]))
+    for i in range(rng.choice([2, 3, 4])):
+        new.append(dict(columns(rng), attrs=attributes(rng, fmt, idkey, "n%d" % i), extra=[]))
+    return {"kind": "locked", "fmt": fmt, "strategy": strategy, "force": [], "idkey": idkey,
+            "spec_form": "default" if fmt == "gff3" else "str", "batches": [base, new], "reopen": True, "db": "file",
+            "pass_force_anyway": False, "pattern": [], "hold": rng.choice([6.5, 7.0])}
